@@ -921,7 +921,14 @@ var factSignature = &fact{id: "signature", what: "an RSA-SHA256 signature by the
 		sigOK := func(sig ssa.Value) bool {
 			return ir.HasField(c.sliceOf(sig), M+"/pkcs7.signerinfo.EncryptedDigest")
 		}
-		for _, call := range errorOrigins(v, map[ssa.Value]bool{}) {
+		// an error variable that may still hold its initial nil when it is tested (a
+		// switch without default around the check) lets the edge be taken unchecked
+		if mayBeUnsetNil(v, map[ssa.Value]bool{}) {
+			return false
+		}
+		origins := errorOrigins(v, map[ssa.Value]bool{})
+		good := 0
+		for _, call := range origins {
 			switch ir.CallID(call) {
 			case "crypto/x509.Certificate.CheckSignature":
 				args := call.Call.Args // recv, algo, signed, signature
@@ -934,7 +941,7 @@ var factSignature = &fact{id: "signature", what: "an RSA-SHA256 signature by the
 					continue
 				}
 				if attrsOK(args[2]) && sigOK(args[3]) {
-					return true
+					good++
 				}
 			case "crypto/rsa.VerifyPKCS1v15":
 				args := call.Call.Args // pub, hash, hashed, sig
@@ -962,12 +969,44 @@ var factSignature = &fact{id: "signature", what: "an RSA-SHA256 signature by the
 					continue
 				}
 				if sigOK(args[3]) {
-					return true
+					good++
 				}
 			}
 		}
-		return false
+		return good > 0 && good == len(origins)
 	}}
+
+// mayBeUnsetNil: the error value is a phi (or a cell) one of whose sources is
+// the constant nil.
+func mayBeUnsetNil(v ssa.Value, seen map[ssa.Value]bool) bool {
+	if v == nil || seen[v] {
+		return false
+	}
+	seen[v] = true
+	switch x := v.(type) {
+	case *ssa.Const:
+		return x.IsNil()
+	case *ssa.Phi:
+		for _, e := range x.Edges {
+			if mayBeUnsetNil(e, seen) {
+				return true
+			}
+		}
+	case *ssa.UnOp:
+		if a, ok := x.X.(*ssa.Alloc); ok {
+			stores := 0
+			for _, r := range *a.Referrers() {
+				if st, ok := r.(*ssa.Store); ok && st.Addr == ssa.Value(a) {
+					stores++
+					if mayBeUnsetNil(st.Val, seen) {
+						return true
+					}
+				}
+			}
+		}
+	}
+	return false
+}
 
 // sha256Over: the slice computes SHA-256 (and no other hash).
 func sha256Only(c *Ctx, sl map[ssa.Value]bool) bool {
